@@ -13,7 +13,8 @@ P = Prop("C04", "exploration",
          rule="Hypothesis draws (key/IV/tweak pattern: random, all-zero, all-one, counters next to the 2^32/2^64/2^128 carries; message "
               "length biased to block boundaries 0..4 KiB with a few up to 64 KiB; content pattern; partition into update calls incl. "
               "zero-length and unaligned chunks; CFB segment 1..16; GCM IV 1..64 / tag 12..16 / AAD 0..64+; CCM nonce 7..13 / tag 4..16 / "
-              "AAD lengths around the 2-, 6-byte length encodings; XTS data-unit sizes). Each case compares the library with the "
+              "AAD lengths around the 2-, 6-byte length encodings; XTS data-unit sizes; for ZUC also explicit work-mode states whose LFSR feedback is aimed at "
+              "the residues 0, 1, p-1 at a drawn step). Each case compares the library with the "
               "OpenSSL/Python reference byte for byte (one-shot, streaming under the drawn chunking, in place), checks decrypt(encrypt(m)) == m "
               "and the NULL-out size query discipline with exactly-sized heap buffers under ASan. Non-trivial: length >= 1 and (>= 2 chunks "
               "with one not block-aligned, or a parameter off its default / a counter carry / a partial last block). Distinct = distinct case JSON.",
@@ -23,7 +24,11 @@ P = Prop("C04", "exploration",
                       "vlib/ref/zuc.py, validated at import against published vectors and the vectors in /repo/tests/*.c",
                       "CBC-MAC of the empty message is outside the domain; ECB/XTS streams are fed whole blocks / data units in total",
                       "in-place use of *_update is exercised only for encryption with block-aligned chunks (no buffered bytes)",
-                      "ChaCha20 block counter wraps modulo 2^32 without touching the nonce (RFC 8439 block function per counter value)"])
+                      "ChaCha20 block counter wraps modulo 2^32 without touching the nonce (RFC 8439 block function per counter value)",
+                      "zuc_state: the work-mode step of GB/T 33133 is defined on every state with LFSR cells in [1, 2^31-1]; the LFSR "
+                      "recurrence is maximal-length, so every such LFSR state except the all-zero-residue one lies on the single cycle every "
+                      "key/IV runs along. The sub writes such a state (LFSR aimed so that the feedback has a chosen residue at a chosen step, "
+                      "obtained by running the recurrence backwards) into the public ZUC_STATE / the ZUC_STATE at the head of the contexts"])
 
 SENT = 0x5A5A5A5A5A5A5A5A
 
@@ -947,6 +952,119 @@ def zuc(case, ctx):
     l.zuc256_mac_finish(mc, Buf.of(rest) if rest else None, nbits - 8 * pre if rest else 0, mo)
     exp = ZR.mac256(key256, iv256, bits, nb_eff, mb)
     same(ctx, mo.raw(), exp, "zuc256_mac(%d-bit tag) update chunks %s + finish(%d bits)" % (mb, mparts, nb_eff - 8 * pre), "zuc256/mac")
+
+
+
+# state-level ZUC: the library's functions started at an explicit work-mode state (ZUC_STATE is a public struct)
+_M31 = ZR.M31
+_cell = st.one_of(st.integers(1, _M31), st.integers(1, _M31),
+                  st.sampled_from([1, 2, _M31, _M31 - 1, 0x40000000, 0x3FFFFFFF, 0xFFFF, 0x8000, 0x7FFF8000, 0x10000, 0x7FFF]))
+zuc_state_case = st.fixed_dictionaries({
+    "cells": st.lists(_cell, min_size=16, max_size=16), "r1": st.integers(0, 0xFFFFFFFF), "r2": st.integers(0, 0xFFFFFFFF),
+    "aim": st.sampled_from(["none", "zero", "zero", "zero", "one", "p-1", "random"]), "target": st.integers(0, _M31 - 1),
+    "at": st.one_of(st.integers(0, 40), st.integers(0, 3)), "more": st.integers(0, 24), "tail": st.integers(0, 3),
+    "xbits": st.integers(0, 70), "seed": st.integers(0, 1 << 32), "cuts": cut_strategy, "macbits": st.sampled_from([32, 64, 128])})
+
+
+def _state_bytes(cells, r1, r2):
+    return struct.pack("<18I", *(list(cells) + [r1, r2]))
+
+
+@P.sub("zuc_state", zuc_state_case, quick=3000, thorough=60000, variants=GENVAR)
+def zuc_state(case, ctx):
+    """ZUC work mode from an explicit state whose LFSR feedback is aimed at a chosen residue (0, 1, p-1) at a chosen step: key stream, keyword, zuc_encrypt, streaming, MACs vs the model"""
+    l = lib(ctx.variant)
+    at, aim = case["at"], case["aim"]
+    cells = list(case["cells"])
+    if all(c == _M31 for c in cells):
+        cells[0] = 1                      # the all-zero residue state is the fixed point outside the cycle
+    if aim != "none":
+        target = {"zero": 0, "one": 1, "p-1": _M31 - 1, "random": case["target"]}[aim]
+        cells = ZR.aim_feedback(cells, target)      # the state at step `at` ...
+        for _ in range(at):
+            cells = ZR.step_back(cells)             # ... and the state `at` steps earlier, where the library starts
+    r1, r2 = case["r1"], case["r2"]
+    nw = at + 2 + case["more"]
+    ref = ZR.Zuc.from_state(cells, r1, r2)
+    exp = ref.words(nw + 2)
+    ctx.case(nontrivial=aim != "none", ident=case, sample=case,
+             classes=["aim:" + aim, "at=0" if at == 0 else "at<=3" if at <= 3 else "at>3", "feedback-zero" if aim == "zero" else "feedback-other"])
+    sb = _state_bytes(cells, r1, r2)
+    where = "state LFSR=%s R1=%08x R2=%08x, feedback %s at step %d" % (",".join("%x" % c for c in cells), r1, r2, aim, at)
+    st_ = obj("ZUC_STATE"); st_.write(sb)
+    out = Buf(4 * nw, fill=0xA5)
+    l.zuc_generate_keystream(st_, nw, out)
+    same(ctx, out.raw(), _words_le(exp[:nw]), "zuc_generate_keystream(%d words) from %s" % (nw, where), "zuc-state/keystream")
+    w = [l.zuc_generate_keyword(st_), l.zuc_generate_keyword(st_)]
+    ctx.check(w == exp[nw:], "zuc_generate_keyword after %d words from %s: %s != %s" % (nw, where, w, exp[nw:]), "zuc-state/keyword-after")
+    st_ = obj("ZUC_STATE"); st_.write(sb)
+    w = [l.zuc_generate_keyword(st_) for _ in range(nw)]
+    ctx.check(w == exp[:nw], "zuc_generate_keyword x %d from %s: first difference at word %d"
+              % (nw, where, next((i for i in range(nw) if w[i] != exp[i]), -1)), "zuc-state/keyword")
+    st_ = obj("ZUC_STATE"); st_.write(sb)
+    out = Buf(4 * nw, fill=0xA5)
+    l.zuc256_generate_keystream(st_, nw, out)
+    same(ctx, out.raw(), _words_le(exp[:nw]), "zuc256_generate_keystream(%d words) from %s" % (nw, where), "zuc-state/keystream256")
+    st_ = obj("ZUC_STATE"); st_.write(sb)
+    w = [l.zuc256_generate_keyword(st_) for _ in range(nw)]
+    ctx.check(w == exp[:nw], "zuc256_generate_keyword x %d from %s" % (nw, where), "zuc-state/keyword256")
+    # byte interface
+    n = 4 * nw - (4 - case["tail"]) % 4 if case["tail"] else 4 * nw
+    data = content(n, case["seed"] & 3, case["seed"])
+    ks = b"".join(x.to_bytes(4, "big") for x in exp[:nw])[:n]
+    expc = ZR.xor_bytes(data, ks)
+    slack = 3 if (n % 4 and known(ctx, ZUC_OVERREAD)) else 0
+    st_ = obj("ZUC_STATE"); st_.write(sb)
+    out = Buf(n, fill=0xA5)
+    inb = Buf(n + slack, fill=0xEE); inb.write(data)
+    l.zuc_encrypt(st_, inb, n, out)
+    same(ctx, out.raw(), expc, "zuc_encrypt(inlen=%d) from %s" % (n, where), "zuc-state/encrypt")
+    seed = case["seed"]
+    key, iv = keymat(16, 0, seed), keymat(16, 0, seed, "iv")
+    c = obj("ZUC_CTX")
+    ctx.check(l.zuc_encrypt_init(c, Buf.of(key), Buf.of(iv)) == 1, "zuc_encrypt_init", "zuc/init")
+    c.write(sb)                            # ZUC_CTX.zuc_state is the first member
+    parts = parts_of(n, case["cuts"])
+    got, _ = stream(ctx, "zuc-state/enc", c, l.zuc_encrypt_update, l.zuc_encrypt_finish, data, parts, query=False, fin_query=False,
+                    model_upd=lambda off, p: 4 * ((off + p) // 4) - 4 * (off // 4), model_fin=lambda t: t % 4)
+    same(ctx, got, expc, "zuc_encrypt_update/finish over chunks %s of %d bytes from %s" % (parts, n, where), "zuc-state/stream")
+    # MACs: the context after init holds K0 (and T) from the real key/IV; the generator state is then replaced
+    nbits = 32 * (at + 2) + case["xbits"]
+    nby = (nbits + 7) // 8
+    bits = content(nby + 4, (seed >> 2) & 3, seed + 7)
+    pre = (nbits // 8) * ((seed >> 3) % 5) // 4
+    mparts = parts_of(pre, case["cuts"])
+    rest = bits[pre:nby]
+    nb_eff = nbits if rest else 8 * pre
+    mc = obj("ZUC_MAC_CTX")
+    l.zuc_mac_init(mc, Buf.of(key), Buf.of(iv))
+    mc.write(sb)
+    off = 0
+    for p in mparts:
+        l.zuc_mac_update(mc, Buf.of(bits[off:off + p]), p)
+        off += p
+    mo = Buf(4, fill=0xA5)
+    l.zuc_mac_finish(mc, Buf.of(rest) if rest else None, nbits - 8 * pre if rest else 0, mo)
+    L = ZR.mac128_len(nb_eff)
+    words = ZR.zuc128(key, iv).words(1) + ZR.Zuc.from_state(cells, r1, r2).words(L - 1)
+    expm = ZR.mac128_words(words, bits, nb_eff)
+    ctx.check(int.from_bytes(mo.raw(), "big") == expm, "zuc_mac update chunks %s + finish(%d bits) = %s, expected %08x, generator replaced by %s"
+              % (mparts, nb_eff - 8 * pre, mo.raw().hex(), expm, where), "zuc-state/mac")
+    mb = case["macbits"]
+    key256, iv256 = keymat(32, 0, seed, "key256"), keymat(23, 0, seed, "iv256")
+    mc = obj("ZUC256_MAC_CTX")
+    l.zuc256_mac_init(mc, Buf.of(key256), Buf.of(iv256), mb)
+    mc.write(sb)
+    off = 0
+    for p in mparts:
+        l.zuc256_mac_update(mc, Buf.of(bits[off:off + p]), p)
+        off += p
+    mo = Buf(mb // 8, fill=0xA5)
+    l.zuc256_mac_finish(mc, Buf.of(rest) if rest else None, nbits - 8 * pre if rest else 0, mo)
+    L = ZR.mac256_len(nb_eff, mb)
+    words = ZR.zuc256(key256, iv256, mb).words(2 * (mb // 32)) + ZR.Zuc.from_state(cells, r1, r2).words(L - 2 * (mb // 32))
+    same(ctx, mo.raw(), ZR.mac256_words(words, bits, nb_eff, mb), "zuc256_mac(%d-bit tag) update chunks %s + finish(%d bits), generator replaced by %s"
+         % (mb, mparts, nb_eff - 8 * pre, where), "zuc-state/mac256")
 
 
 chacha_case = st.fixed_dictionaries({"kpat": st.sampled_from([0, 0, 0, 1, 2]), "seed": st.integers(0, 1 << 32),
